@@ -96,9 +96,11 @@ def run(cfg, tier="quick", seed=0, replay=None):
     proof_ok = ok
     if not ok:
         problems.append({"kind": "proof", "what": "make of %s failed" % cfg.proof_targets, "log": out[-5000:]})
-        ok2, out2 = core.coq_make(cfg.corr_targets)
-        if not ok2:
-            problems.append({"kind": "model", "what": "model/correspondence files no longer compile", "log": out2[-5000:]})
+    # the model / correspondence files are always brought up to date (they may not be in the
+    # proof targets' closure, and a regenerated Gen file makes them stale)
+    ok2, out2 = core.coq_make(cfg.corr_targets)
+    if not ok2:
+        problems.append({"kind": "model", "what": "model/correspondence files no longer compile", "log": out2[-5000:]})
     # (c) audit
     aud = {"theorems": core.theorem_names(pid), "closed": [], "axioms": {}, "ok": False}
     if proof_ok:
